@@ -330,7 +330,7 @@ impl HllSketch {
                         )));
                     }
 
-                    let lg_arr = checked_lg_coupon_arr(lg_arr, lg_config_k)?;
+                    let lg_arr = checked_lg_coupon_arr(lg_arr, LG_LIST_SIZE, LG_LIST_SIZE)?;
                     let coupon_count = state as usize;
                     let list = List::deserialize(cursor, lg_arr, coupon_count, empty, compact)?;
                     Mode::List { list, hll_type }
@@ -343,7 +343,13 @@ impl HllSketch {
                         )));
                     }
 
-                    let lg_arr = checked_lg_coupon_arr(lg_arr, lg_config_k)?;
+                    // Below lg_k = 8 a full list is promoted to an array directly
+                    if lg_config_k < 8 {
+                        return Err(Error::deserial(format!(
+                            "SET mode requires lg_k >= 8, got {lg_config_k}"
+                        )));
+                    }
+                    let lg_arr = checked_lg_coupon_arr(lg_arr, LG_MIN_SET_SIZE, lg_config_k - 3)?;
                     let set = HashSet::deserialize(cursor, lg_arr, compact)?;
                     Mode::Set { set, hll_type }
                 }
@@ -521,17 +527,22 @@ impl HllSketch {
     }
 }
 
+/// lg size of a coupon list
+const LG_LIST_SIZE: u8 = 3;
+/// smallest lg size of a coupon set
+const LG_MIN_SET_SIZE: u8 = 5;
+
 /// Validates the lg size of a coupon container (list or set) read from an image.
 ///
-/// A container never has more than 2^max(lg_k - 3, 5) slots: a set of that size is promoted to
-/// an array instead of growing. Larger values would overflow the shift or allocate a table out
-/// of all proportion to the image.
-fn checked_lg_coupon_arr(lg_arr: u8, lg_config_k: u8) -> Result<usize, Error> {
-    const LG_INIT_SET_SIZE: u8 = 5;
-    let max_lg_arr = lg_config_k.saturating_sub(3).max(LG_INIT_SET_SIZE);
-    if lg_arr > max_lg_arr {
+/// A list always has 2^3 slots (when it fills up it is replaced by a set of 2^5 slots, which
+/// could not even hold the coupons of a larger list). A set has between 2^5 and 2^(lg_k - 3)
+/// slots: a set of that size is promoted to an array instead of growing. Values outside these
+/// ranges would overflow the shift, allocate a table out of all proportion to the image, or
+/// leave the sketch in a state from which it cannot be promoted.
+fn checked_lg_coupon_arr(lg_arr: u8, min_lg_arr: u8, max_lg_arr: u8) -> Result<usize, Error> {
+    if !(min_lg_arr..=max_lg_arr).contains(&lg_arr) {
         return Err(Error::deserial(format!(
-            "lg_arr must be at most {max_lg_arr} for lg_k {lg_config_k}, got {lg_arr}"
+            "lg_arr must be in [{min_lg_arr}; {max_lg_arr}], got {lg_arr}"
         )));
     }
     Ok(lg_arr as usize)
